@@ -23,6 +23,7 @@ const pagPkg = "collection/pagination"
 
 func runC19(c *Ctx) {
 	c.rule("E1", "a return reached only on the non-nil side of a test of a callee's error must not return a nil error (constructor failures are reported)", 10)
+	c.rule("E9", "in a function that can report an error, the error obtained from a callee goes somewhere: into a return, a call or a store — it is not merely looked at", 12)
 	c.rule("E2", "HasNext/GetNext consult the paginator's context first: the DetermineContextError(a.ctx) test dominates every other call, and its failing side answers false / the error", 2)
 	c.rule("E3", "HasNext returns true only on the true side of the current iterator's HasNext, or as the result of its own recursion after fetchNextPage succeeded", 2)
 	c.rule("E8", "HasNext consults the paginator's context again between the return of a page fetch and any answer that can be true", 1)
@@ -34,6 +35,7 @@ func runC19(c *Ctx) {
 	for _, f := range c.srcFuncs(pagPkg) {
 		c.FuncsSeen[fname(f)] = true
 		c.errDropRule("E1", f)
+		c.errDeadRule("E9", f)
 	}
 	c.c19Gate()
 	c.c19HasNext()
@@ -41,6 +43,92 @@ func runC19(c *Ctx) {
 	c.c19Cursor()
 	c.c19Stop()
 	c.c19Stream()
+}
+
+// errDeadRule (E9): E1 looks at returns that lie wholly on the failing side of a test. A failure can also vanish without
+// such a return: the error is received in a variable of its own (a shadow of the named result), tested, and the function
+// carries on to the common return with the outer, still nil, error. What E9 asks is that the value received goes somewhere.
+func (c *Ctx) errDeadRule(rule string, f *ssa.Function) {
+	res := f.Signature.Results()
+	if res.Len() == 0 || !isErrorType(res.At(res.Len()-1).Type()) {
+		return
+	}
+	k := res.Len() - 1
+	allInstrs(f, func(in ssa.Instruction) {
+		call, ok := in.(*ssa.Call)
+		if !ok {
+			return
+		}
+		for _, e := range errResultsOf(call) {
+			from := short(calleeFull(&call.Call))
+			if from == "" {
+				from = "dynamic call"
+				if call.Call.Method != nil {
+					from += " " + call.Call.Method.Name()
+				}
+			}
+			key := fname(f) + "/err-of:" + from
+			if e == ssa.Value(call) && (call.Referrers() == nil || len(*call.Referrers()) == 0) {
+				continue // result deliberately not taken (`_ = f()`): not this rule's business
+			}
+			if c19ErrorGoesSomewhere(e, f, k, map[ssa.Value]bool{}) {
+				c.ok(rule, key, c.ipos(call), "error reported, passed on or stored")
+			} else {
+				c.violate(rule, key, c.ipos(call), "the error returned by "+from+" is received and at most compared with nil; it reaches no return, call or store: when the callee fails the function carries on and reports success (a variable of the same name as the error result, declared in an inner scope, is the usual way this happens)")
+			}
+		}
+	})
+}
+
+func c19ErrorGoesSomewhere(v ssa.Value, f *ssa.Function, k int, seen map[ssa.Value]bool) bool {
+	if seen[v] {
+		return false
+	}
+	seen[v] = true
+	refs := v.Referrers()
+	if refs == nil {
+		return false
+	}
+	for _, r := range *refs {
+		switch x := r.(type) {
+		case *ssa.Return:
+			return true
+		case *ssa.Store:
+			if x.Val == v {
+				if a, ok := x.Addr.(*ssa.Alloc); ok {
+					// a local: somewhere only if the local is read by something that goes somewhere
+					for _, ar := range *a.Referrers() {
+						if u, ok := ar.(*ssa.UnOp); ok && c19ErrorGoesSomewhere(u, f, k, seen) {
+							return true
+						}
+					}
+					// named result spilled because of a defer: the return reads it implicitly
+					if f.Recover != nil {
+						return true
+					}
+					continue
+				}
+				return true
+			}
+		case ssa.CallInstruction:
+			return true
+		case *ssa.Phi:
+			if c19ErrorGoesSomewhere(x, f, k, seen) {
+				return true
+			}
+		case *ssa.MakeInterface:
+			if c19ErrorGoesSomewhere(x, f, k, seen) {
+				return true
+			}
+		case *ssa.ChangeInterface:
+			if c19ErrorGoesSomewhere(x, f, k, seen) {
+				return true
+			}
+		case *ssa.MakeClosure:
+			return true
+		}
+	}
+	return false
 }
 
 // errDropRule: see E1.
